@@ -1095,3 +1095,10 @@ package stun
 //@   requires m != nil && cap(m.Raw) >= 20
 //@   assigns m.TransactionID, m.Raw[8:20]
 //@   ensures result == nil ==> forall(j, 0, 12, m.Raw[8+j] == m.TransactionID[j])
+
+//@ func Message.MarshalBinary
+//@   safety C08
+//@   props C08
+//@   pure
+//@   allocates
+//@   ensures result1 == nil && fresh(result0) && bytes_eq(result0, m.Raw)
